@@ -17,6 +17,8 @@ def main(tier):
         for m in res["mismatches"]:
             kind = "token-sequence" if m["what"].startswith("C01") else ("panic" if "panics" in m["what"] else "tree")
             chk.violation(f"lab:{kind}", "builder lab: " + m["what"], {"history": m["history"], "what": m["what"]})
-        if res.get("miri") and (res["miri"]["exit"] != 0 or res["miri"]["reports"]):
+        if res.get("miri") and res["miri"]["reports"]:
             chk.violation("lab:miri", f"Miri reports on the tree builder: {res['miri']}", res["miri"])
+        elif res.get("miri") and res["miri"]["exit"] != 0:
+            chk.note("builder_lab_miri_inconclusive", f"miri run ended with {res['miri']['exit']} without an undefined-behaviour report")
     arena_common.main("C02", tier, extra=extra)
